@@ -258,4 +258,79 @@ theorem progress (c : Cfg) (s : State) (hi : PInv c s) (hns : s.j.seen = false) 
             · have : s.brem = 0 := by omega
               exact en .bClose (by simp [step, hnp, this, hbc])
 
+def mW : MPc → Nat
+  | .recv => 2 | .send => 3 | .closing => 1 | .done => 0
+
+/-- every step from a state satisfying the invariant strictly decreases this measure -/
+def measure (c : Cfg) (s : State) : Nat :=
+  JoinWG.measure (jcfg c) s.j + 3 * s.brem + 2 * s.bbuf + mW s.mpc + (if s.bclosed then 0 else 1)
+
+theorem measure_decreases (c : Cfg) (s s' : State) (l : Label) (hi : PInv c s)
+    (hs : step c s l = some s') : measure c s' < measure c s := by
+  obtain ⟨hl, hj⟩ := hi
+  have hnp := hj.1.np
+  have eR : mW MPc.recv = 2 := rfl
+  have eS : mW MPc.send = 3 := rfl
+  have eC : mW MPc.closing = 1 := rfl
+  have eD : mW MPc.done = 0 := rfl
+  cases l with
+  | bSend =>
+    simp only [step, hnp, Bool.false_eq_true, if_false] at hs
+    split at hs
+    · next hc =>
+      obtain ⟨hrem, _⟩ := hc
+      split at hs
+      · cases hs; simp only [measure]; omega
+      · split at hs
+        · next hjn => cases hs; simp only [measure, hjn.2, eR, eS]; omega
+        · cases hs
+    · cases hs
+  | bClose =>
+    simp only [step, hnp, Bool.false_eq_true, if_false] at hs
+    split at hs
+    · next hc => cases hs; simp only [measure, hc.2, Bool.false_eq_true, if_false, if_true]; omega
+    · cases hs
+  | mRecv =>
+    simp only [step, hnp, Bool.false_eq_true, if_false] at hs
+    split at hs
+    · next hpc =>
+      split at hs
+      · cases hs; simp only [measure, hpc, eR, eS]; omega
+      · split at hs
+        · cases hs; simp only [measure, hpc, eR, eC]; omega
+        · cases hs
+    · cases hs
+  | mSend =>
+    simp only [step, hnp, Bool.false_eq_true, if_false] at hs
+    split at hs
+    · next hpc =>
+      split at hs
+      · next j' hst =>
+        cases hs
+        have := JoinWG.measure_decreases (jcfg c) s.j j' _ hj hst
+        simp only [measure, hpc, eR, eS]; omega
+      · cases hs
+    · cases hs
+  | mClose =>
+    simp only [step, hnp, Bool.false_eq_true, if_false] at hs
+    split at hs
+    · next hpc =>
+      split at hs
+      · next j' hst =>
+        cases hs
+        have := JoinWG.measure_decreases (jcfg c) s.j j' _ hj hst
+        simp only [measure, hpc, eC, eD]; omega
+      · cases hs
+    · cases hs
+  | j l =>
+    simp only [step, hnp, Bool.false_eq_true, if_false] at hs
+    split at hs
+    · split at hs
+      · next j' hst =>
+        cases hs
+        have := JoinWG.measure_decreases (jcfg c) s.j j' _ hj hst
+        simp only [measure]; omega
+      · cases hs
+    · cases hs
+
 end Goderive.K.Pipeline
